@@ -346,6 +346,21 @@ class Walker:
                 else:
                     flat.append(a)
             args = tuple(flat)
+            if kwargs and isinstance(node.func, ast.Name) and node.func.id in self.facts.funcs and node.func.id not in st.env \
+                    and not any(a[0] == 'star' for a in args):
+                # f(x, p=y) with p the next positional parameter of a module-level function is f(x, y)
+                fdef = self.facts.funcs[node.func.id]
+                if not fdef.args.vararg and not fdef.args.posonlyargs:
+                    params = [a.arg for a in fdef.args.args]
+                    kw = dict(kwargs)
+                    if len(kw) == len(kwargs) and None not in kw:
+                        moved = list(args)
+                        for pname in params[len(args):]:
+                            if pname not in kw:
+                                break
+                            moved.append(kw.pop(pname))
+                        args = tuple(moved)
+                        kwargs = tuple((k, v) for k, v in kwargs if k in kw)
             if isinstance(node.func, ast.Name) and node.func.id in self.facts.classes and node.func.id not in st.env:
                 return ('new', node.func.id, args, kwargs)
             if isinstance(node.func, ast.Attribute):
@@ -535,7 +550,7 @@ class Walker:
             for e in node.elts:
                 if isinstance(e, ast.Starred):
                     inner = self.sym(e.value, st)
-                    if inner[0] in ('list', 'tuple') and not any(x[0] == 'star' for x in inner[1]) and kind != 'set':
+                    if inner[0] in ('list', 'tuple') and len(inner) == 2 and not any(x[0] == 'star' for x in inner[1]) and kind != 'set':
                         elts.extend(inner[1])         # [a, *[b, c]] is [a, b, c]
                     else:
                         elts.append(('star', inner))
@@ -968,6 +983,8 @@ class Walker:
             own_locals = {n.id for n in ast.walk(fn) if isinstance(n, ast.Name) and isinstance(n.ctx, ast.Store)} | {a.arg for a in fn.args.args}
             outer = set(cenv) if cenv is not None else set(st.env)
             for p in paths:
+                if p.end == 'raise' and getattr(self, 'returning_paths_only', False) and p not in live:
+                    continue        # asked for the value the call has when it returns (sizes on the non-failing path)
                 if any(e[0] not in self.PURE_EVENTS and not (e[0] == 'aug' and (e[1] in own_locals or e[1] not in outer)) for e in p.events):
                     return None
                 if p in live:
@@ -976,6 +993,8 @@ class Walker:
                     vals.append((p, [e for e in p.events if e[0] == 'return'][-1][1]))
                 else:
                     return None
+            if not vals:
+                return None
             return self.merge_paths(vals, 0)
         finally:
             self._inline_stack.pop()
@@ -1010,6 +1029,17 @@ class Walker:
     # -- deciding tests --------------------------------------------------------------------------------------------
     def class_is(self, cls, base):
         return self.facts.is_subclass(cls, base) if cls in self.facts.classes else None
+
+    def exact_class_test(self, test):
+        """(object, class name) for `type(x) is C` / `x.__class__ is C` (either order, also == / != / is not) with C a class of
+        the analysed module, else None."""
+        for a, b in ((test[2], test[3]), (test[3], test[2])):
+            if b[0] == 'name' and len(b) == 2 and b[1] in self.facts.classes:
+                if a[0] == 'call' and a[1] == 'type' and len(a[2]) == 1 and not a[3]:
+                    return a[2][0], b[1]
+                if a[0] == 'attr' and a[2] == '__class__':
+                    return a[1], b[1]
+        return None
 
     def decide(self, test, st):
         """True / False / None for a symbolic test under the path's facts."""
@@ -1051,6 +1081,26 @@ class Walker:
                     if self.class_is(clsname, c) is False and self.class_is(c, clsname) is False:
                         return False
             return None
+        if k == 'cmp' and test[1] in ('==', '!=', 'is', 'is not'):
+            tc = self.exact_class_test(test)
+            if tc is not None:
+                obj, clsname = tc
+                same = None
+                if obj[0] == 'new':
+                    same = obj[1] == clsname
+                else:
+                    f = st.facts.get(obj)
+                    if f:
+                        subs = [c for c in self.facts.subclasses(clsname) if c != clsname]
+                        if clsname in f['isa'] and all(c in f['nota'] for c in subs):
+                            same = True
+                        elif any(self.class_is(clsname, c) for c in f['nota']):
+                            same = False
+                        elif any(self.class_is(clsname, c) is False for c in f['isa'] if c in self.facts.classes):
+                            same = False
+                if same is not None:
+                    return same if test[1] in ('==', 'is') else not same
+                return None
         if k == 'cmp':
             op, a, b = test[1], test[2], test[3]
             if op in ('==', '!=', 'is', 'is not') :
@@ -1108,6 +1158,20 @@ class Walker:
             f = st.fact(test[2][0])
             (f['isa'] if pol else f['nota']).add(test[2][1][1])
             return
+        if k == 'cmp' and test[1] in ('==', '!=', 'is', 'is not'):
+            tc = self.exact_class_test(test)
+            if tc is not None:
+                # type(x) is C: x is a C and of no proper subclass; the negation excludes C only when C has no subclass
+                obj, clsname = tc
+                subs = [c for c in self.facts.subclasses(clsname) if c != clsname]
+                f = st.fact(obj)
+                if (test[1] in ('==', 'is')) == pol:
+                    f['isa'].add(clsname)
+                    f['nota'].update(subs)
+                elif not subs:
+                    f['nota'].add(clsname)
+                st.fact(test)['truthy'] = pol
+                return
         if k == 'cmp':
             st.fact(test)['truthy'] = pol          # the same comparison of the same values decides the same way later on
             op, a, b = test[1], test[2], test[3]
@@ -1536,18 +1600,7 @@ class Walker:
                         continue
                 if not (v[0] in ('name',) and isinstance(e, ast.Name) and e.id.startswith('__inl')):
                     s.events.append(self.effect(v, node))
-                if (isinstance(e, ast.Call) and isinstance(e.func, ast.Attribute) and isinstance(e.func.value, ast.Name) and e.func.attr in ('append', 'extend')
-                        and v[0] == 'mcall' and v[1][0] == 'list' and len(v[3]) == 1 and not v[4] and s.env.get(e.func.value.id) == v[1]):
-                    # a list display held in a local grows: the local's value is kept up to date (`leading = []; leading.append(x)`)
-                    if e.func.attr == 'append':
-                        s.env[e.func.value.id] = ('list', v[1][1] + (v[3][0],))
-                    elif v[3][0][0] in ('list', 'tuple') and not any(x[0] == 'star' for x in v[3][0][1]):
-                        s.env[e.func.value.id] = ('list', v[1][1] + tuple(v[3][0][1]))
-                    else:
-                        s.env[e.func.value.id] = ('havoc', e.func.value.id, 'extended@{}'.format(getattr(node, 'lineno', 0)))
-                elif (isinstance(e, ast.Call) and isinstance(e.func, ast.Attribute) and isinstance(e.func.value, ast.Name) and v[0] == 'mcall' and v[1][0] == 'list'
-                      and e.func.attr in ('append', 'extend', 'insert', 'pop', 'remove', 'clear', 'sort', 'reverse') and s.env.get(e.func.value.id) == v[1]):
-                    s.env[e.func.value.id] = ('havoc', e.func.value.id, 'mutated@{}'.format(getattr(node, 'lineno', 0)))
+                self.track_list_mutation(e, v, s)
                 out.append(s)
             return out
         if isinstance(node, ast.Assign):
@@ -1568,6 +1621,26 @@ class Walker:
                 return out
             return self._assign_stmt(node, st, done, node)
         return self._stmt_rest(node, st, done)
+
+    def track_list_mutation(self, e, v, st):
+        """`x.append(v)` / `x.extend([a, b])` on a local bound to a list display written in this frame: every name bound to this
+        very object sees the new elements (the event is recorded as before); any other mutating method leaves the contents unknown."""
+        if not (isinstance(e, ast.Call) and isinstance(e.func, ast.Attribute) and isinstance(e.func.value, ast.Name)):
+            return
+        name = e.func.value.id
+        cur = st.env.get(name)
+        if not (isinstance(cur, tuple) and cur and cur[0] == 'list' and len(cur) == 2) or v[0] != 'mcall' or v[2] not in MUTATORS:
+            return
+        kwargs = v[4] if len(v) > 4 else ()
+        if v[2] == 'append' and len(v[3]) == 1 and not kwargs:
+            new = ('list', tuple(cur[1]) + (v[3][0],))
+        elif v[2] == 'extend' and len(v[3]) == 1 and not kwargs and v[3][0][0] in ('list', 'tuple') and not any(x[0] == 'star' for x in v[3][0][1]):
+            new = ('list', tuple(cur[1]) + tuple(v[3][0][1]))
+        else:
+            new = ('havoc', name, 'mutated@{}'.format(getattr(e, 'lineno', 0)))
+        for n_, val in list(st.env.items()):
+            if val is cur:
+                st.env[n_] = new
 
     def effect_only(self, body, st):
         """Is the statement list made of calls made for their effect only (and `pass`): expression statements whose call is not a
@@ -1896,6 +1969,10 @@ class Walker:
             for n in names:
                 if n in st.env and s.env.get(n) != st.env.get(n) and not left_by_break:
                     s.env[n] = ('havoc', n, tag)
+            for n in list(st.env):
+                # changed in place inside the body (a local list appended to): one walk of the body does not say what it holds
+                if n not in names and s.env.get(n) is not st.env.get(n) and s.env.get(n) != st.env.get(n):
+                    s.env[n] = ('havoc', n, tag)
             for an, uses in accs.items():
                 if len(uses) == 1 and not broke:
                     meth, bnode = uses[0]
@@ -1956,39 +2033,68 @@ class Walker:
         return w
 
     def dict_update_loop(self, node):
-        """(dict expression, equivalent DictComp node) for a loop that rewrites the values of the dict it iterates, else None."""
+        """(dict expression, equivalent DictComp node) for a loop that rewrites the values of the dict it iterates, else None:
+        `for k, v in D.items(): [if test:] D[k] = f(v)` and `for k in D: [if test:] D[k] = f(D[k])`, the assignment possibly
+        written as an augmented one, the iterable possibly wrapped in list(...)."""
         if node.orelse:
             return None
         if isinstance(node.target, ast.Name):
-            return self.dict_update_loop_keys(node)
-        if not (isinstance(node.target, ast.Tuple) and len(node.target.elts) == 2 and all(isinstance(e, ast.Name) for e in node.target.elts)):
+            return self.dict_update_loop_keys(node)      # brings the loop over the keys to the items form
+        pair = isinstance(node.target, ast.Tuple) and len(node.target.elts) == 2 and all(isinstance(e, ast.Name) for e in node.target.elts)
+        if not pair and not isinstance(node.target, ast.Name):
             return None
         it = node.iter
-        if isinstance(it, ast.Call) and isinstance(it.func, ast.Name) and it.func.id in ('list', 'tuple') and len(it.args) == 1:
+        if isinstance(it, ast.Call) and isinstance(it.func, ast.Name) and it.func.id in ('list', 'tuple') and len(it.args) == 1 and not it.keywords:
             it = it.args[0]
-        if not (isinstance(it, ast.Call) and isinstance(it.func, ast.Attribute) and it.func.attr == 'items' and not it.args
-                and isinstance(it.func.value, ast.Name)):
-            return None
-        dname = it.func.value.id
-        k, v = node.target.elts[0].id, node.target.elts[1].id
+        if pair:
+            if not (isinstance(it, ast.Call) and isinstance(it.func, ast.Attribute) and it.func.attr == 'items' and not it.args
+                    and isinstance(it.func.value, ast.Name)):
+                return None
+            dexpr = it.func.value
+            k, v = node.target.elts[0].id, node.target.elts[1].id
+        else:
+            if isinstance(it, ast.Call) and isinstance(it.func, ast.Attribute) and it.func.attr == 'keys' and not it.args and not it.keywords:
+                it = it.func.value
+            if not isinstance(it, ast.Name):
+                return None
+            dexpr = it
+            k, v = node.target.id, None
+        dname = dexpr.id
         body = node.body
         tests = []
         while len(body) == 1 and isinstance(body[0], ast.If) and not body[0].orelse:
             tests.append(body[0].test)
             body = body[0].body
-        if not (len(body) == 1 and isinstance(body[0], ast.Assign) and len(body[0].targets) == 1):
+        if len(body) != 1:
             return None
-        tgt = body[0].targets[0]
+        st0 = body[0]
+        if isinstance(st0, ast.Assign) and len(st0.targets) == 1:
+            tgt, value = st0.targets[0], st0.value
+        elif isinstance(st0, ast.AugAssign):
+            tgt = st0.target
+            cur = ast.Name(id=v, ctx=ast.Load()) if pair else ast.Subscript(value=ast.Name(id=dname, ctx=ast.Load()), slice=ast.Name(id=k, ctx=ast.Load()), ctx=ast.Load())
+            value = ast.BinOp(left=cur, op=st0.op, right=st0.value)
+        else:
+            return None
         if not (isinstance(tgt, ast.Subscript) and isinstance(tgt.value, ast.Name) and tgt.value.id == dname
                 and isinstance(tgt.slice, ast.Name) and tgt.slice.id == k):
             return None
-        if any(isinstance(n, ast.Name) and n.id == dname for t in tests + [body[0].value] for n in ast.walk(t)):
+        if pair and any(isinstance(n, ast.Name) and n.id == dname for t in tests + [value] for n in ast.walk(t)):
             return None
-        comp = ast.DictComp(key=ast.Name(id=k, ctx=ast.Load()), value=body[0].value,
+        if not pair:
+            # the dict may only be read at the key of this iteration
+            cells = set()
+            for t in tests + [value]:
+                for n in ast.walk(t):
+                    if isinstance(n, ast.Subscript) and isinstance(n.value, ast.Name) and n.value.id == dname and isinstance(n.slice, ast.Name) and n.slice.id == k:
+                        cells.add(id(n.value))
+            if any(isinstance(n, ast.Name) and n.id == dname and id(n) not in cells for t in tests + [value] for n in ast.walk(t)):
+                return None
+        comp = ast.DictComp(key=ast.Name(id=k, ctx=ast.Load()), value=value,
                             generators=[ast.comprehension(target=node.target, iter=it, ifs=tests, is_async=0)])
         ast.copy_location(comp, node)
         ast.fix_missing_locations(comp)
-        return it.func.value, comp
+        return dexpr, comp
 
     def dict_update_loop_keys(self, node):
         """for k in D [/ D.keys() / list(D)]: [if test(D[k]):] D[k] = f(D[k])  /  D[k] -= d     is
@@ -2246,6 +2352,9 @@ class Walker:
             if forever and not broke:
                 continue           # `while True:` is only ever left through break / return / raise
             s.end = None
+            for n in list(st.env):
+                if n not in names and s.env.get(n) is not st.env.get(n) and s.env.get(n) != st.env.get(n):
+                    s.env[n] = ('havoc', n, tag)          # changed in place inside the body (a local list appended to)
             if broke and forever:
                 # the facts the exit rests on are the `if ...: break` conditions already on the path
                 s.events.append(('endwhile', C(False), node))
